@@ -26,10 +26,21 @@ RULE = ("cases = (conversion, options, source automaton); all NFAs with ε: 1 st
         "from_dfa on all DFAs ≤2 states; shaped random NFAs ≤5 states (ε-cycles, states without rows, empty target "
         "sets, unreachable parts, rows keyed by non-states, the 2ⁿ 'n-th symbol from the end' family); empty alphabet "
         "(exhaustive for ≤2 states + random); a single state with transitions={} (the len(states)<=1 exemption of "
-        "validate); sparse 8–12 state NFAs; non-trivial "
+        "validate); sparse 8–12 state NFAs; round 4: (i) determinisations with MORE THAN 128 subset states — n-th symbol "
+        "from the end for n = 8 (all options, with / without ε detours) and n = 9, rings of 129 and 130–200 states, random "
+        "sparse NFAs with 129–300 reachable subsets; (ii) the mutable-automata option: ONE live NFA built under "
+        "allow_mutable_automata=True from plain / ALIASED (one set object for equal target sets, final_states is states, "
+        "shared rows) / copied containers, a SEQUENCE of 3–6 conversions and reads on that same object (from_nfa in all "
+        "option combinations, eliminate_lambda, accepts_input, from_nfa → from_dfa twice, eliminate_lambda → from_nfa), "
+        "every result judged against the definition AS BUILT (frozen twin); bounded-exhaustive for 1-state {a,b} and every "
+        "4th 2-state {a} NFA; live DFAs under NFA.from_dfa; non-trivial "
         "= source has ≥2 states and a non-empty, non-universal language; distinct = distinct (conversion, options, source)")
 ASSUMPTIONS = [
     "sources are valid automata built through the real constructors",
+    "mutable-automata option (round 4): the option only changes the container types the constructor stores; the property "
+    "is read as 'the conversion of an object built from plain containers has the language of the definition it was "
+    "built with, whatever was called on the object before' — judged against a frozen twin; the model is asked only "
+    "while the live object still has that definition (stat mutable_option_definition_changed otherwise)",
     "input symbols are non-empty str (the typed domain AbstractSet[str]): the constructors refuse \"\" as an input "
     "symbol (InvalidSymbolError since /repo 07f4843, checked by a probe on every run) and None as a state name; the "
     "model types a transition label as `Option α` with ε = none, i.e. it reads the code's truthiness tests "
